@@ -371,6 +371,19 @@ pub fn op_errmap(run: &mut Run, path: &'static str, call: &'static str, e: Injec
             "panic"
         }
     };
+    // C09 oracle (independent of the model): an address-in-use failure of a TCP probe (at bind or at connect)
+    // must surface as Error::AddressInUse so that the strategy re-issues the probe; a connect in progress is
+    // not a failure; no other failure is swallowed
+    let name = io_kind_name(e);
+    if path.starts_with("tcp") && (call == "bind" || call == "conn") && name == "addr-in-use" && out != "addr-in-use" {
+        run.fail("c09-errmap-addr-in-use", format!("{req} => {out}"));
+    }
+    if path.starts_with("tcp") && call == "conn" && name == "in-progress" && out != "ok" {
+        run.fail("c09-errmap-in-progress", format!("{req} => {out}"));
+    }
+    if out == "ok" && name != "in-progress" {
+        run.fail("c09-errmap-swallowed", format!("{req} => {out}"));
+    }
     run.op(req, out.to_string());
 }
 
